@@ -247,6 +247,28 @@ def analyse(repo):
     if not sites: raise Unknown('sqltranslation.py: no site records fixed_param_values')
     f['pinSites'] = ['%s: %s' % s_ for s_ in sites]
     f['pinsRecordedAtRoot'] = all(r.endswith('.root_translator') for _, r in sites)
+    # a cached translator is never mutated after the store: every consumer works on a deepcopy
+    import re as _re
+    problems = []
+    for qual in ('SQLTranslator.dispatch_external', 'SQLTranslator.init'):
+        fn = find_func(sqlt, qual)
+        uses = [n for n in ast.walk(fn) if isinstance(n, ast.Assign) and _re.search(r'\b(t|iterable)\.translator\b', src(n.value))]
+        if not uses: problems.append('%s: no use of a query-typed variable\'s translator found' % qual)
+        for n in uses:
+            if not _re.fullmatch(r'(t|iterable)\.translator\.deepcopy\(\)', src(n.value)): problems.append('%s: %s' % (qual, src(n)))
+    for name in ('without_order', 'order_by_numbers', 'order_by_attributes', 'apply_kwfilters', 'apply_lambda'):
+        fn = find_func(sqlt, 'SQLTranslator.' + name)
+        first = None
+        for st in fn.body:
+            touched = [n for n in ast.walk(st) if isinstance(n, ast.Assign) and any('translator' in src(t).split('[')[0] for t in n.targets)]
+            if touched or (isinstance(st, ast.With) and 'translator' in src(st.items[0].context_expr)):
+                first = st; break
+        if first is None or src(first) != 'translator = translator.deepcopy()':
+            problems.append('SQLTranslator.%s: first statement that touches the translator is %s' % (name, src(first)[:80] if first is not None else None))
+    dc = src(find_func(sqlt, 'SQLTranslator.deepcopy'))
+    if 'result = deepcopy(translator)' not in dc: problems.append('SQLTranslator.deepcopy does not deep-copy')
+    f['translatorAliasingProblems'] = problems
+    f['cachedTranslatorsCopiedBeforeMutation'] = not problems
     # create_extractors: is a hit re-validated against the classification of the called names in the new scope
     ce = find_func(asttr, 'create_extractors')
     ces = src(ce)
@@ -300,6 +322,8 @@ def render(f):
     lines.append('def codeobjectsPinned : Bool := %s' % b(f['codeobjectsPinned']))
     lines.append('/-- every site that bakes a parameter value into a translator records it in the ROOT translator\'s `fixed_param_values` -/')
     lines.append('def pinsRecordedAtRoot : Bool := %s' % b(f['pinsRecordedAtRoot']))
+    lines.append('/-- every consumer of a cached translator (`for x in <query>`, query-typed externals, order_by / filter / where derivations) works on `translator.deepcopy()` -/')
+    lines.append('def cachedTranslatorsCopiedBeforeMutation : Bool := %s' % b(f['cachedTranslatorsCopiedBeforeMutation']))
     lines.append('/-- `Entity.flush` contains `query_results.clear()` -/')
     lines.append('def entityFlushClearsResults : Bool := %s' % b(f['entityFlushClearsResults']))
     lines.append('/-- `Query._aggregate` / `Query._actual_fetch` call `prepare_connection_for_query_execution()` before the lookup -/')
